@@ -7,7 +7,7 @@ whole, by the very next `Consume` after a WINDOW_UPDATE that makes `available()`
 chain is covered by the liveness clause of the trace oracle.)
 -/
 namespace NetVerif.Proofs.C08
-open NetVerif.Model.SendWin NetVerif.Model.Flow NetVerif.Proofs.SendWin NetVerif.Proofs.Flow
+open NetVerif.Model.SendWin NetVerif.Model.Flow NetVerif.Proofs.SendWin NetVerif.Proofs.SendWinFlow
 
 /-- stream window exhausted or negative (e.g. after a SETTINGS shrink), connection window positive -/
 theorem stream_wu_resumes_data (s : Send) (sid len : Nat) (a inc : Int) (hs : sid ≠ 0)
